@@ -36,6 +36,7 @@ def render_rules(src, posix=False, use_scopes=False, xseed=None, auto=(), vact=N
 
     done_auto = []
     pending_star = None
+    open_scope = None
     def nested_star(k):
         """is rule k (a <*> rule) directly followed in the file by a rule with a proper start-condition list?"""
         for i, e in enumerate(layout):
@@ -60,25 +61,27 @@ def render_rules(src, posix=False, use_scopes=False, xseed=None, auto=(), vact=N
                 act = "{ %s if (vnever) { %s } }" % ((vact % k if vact else "VACT(%d)" % k), " ".join({"reject": "REJECT;", "yymore": "yymore();"}[a] for a in auto))
                 done_auto.append(1)
             if r.get("bar"): act = "|"          # same action as the next rule
-            if use_scopes and pending_star is not None and r["scs"] and r["scs"] != [0]:
-                # a <*> rule written inside the scope of the rule that follows it: the prefix applies to that rule
-                # alone, the rest of the scope keeps the scope's conditions
-                lines.append("%s{" % prefix(r["scs"]))
-                lines.append("<*>%s" % pending_star)
+            scoped = use_scopes and r["scs"] and r["scs"] != [0]
+            if scoped:
+                # consecutive rules with the same start conditions share one scope block
+                if open_scope != r["scs"]:
+                    if open_scope is not None: lines.append("}")
+                    lines.append("%s{" % prefix(r["scs"])); open_scope = list(r["scs"])
+                if pending_star is not None:
+                    # a <*> rule written inside the scope of the rule that follows it: the prefix applies to that
+                    # rule alone, the rest of the scope keeps the scope's conditions
+                    lines.append("<*>%s" % pending_star); pending_star = None
                 lines.append("%s  %s" % (pat, act))
-                lines.append("}")
-                pending_star = None
-            elif use_scopes and r["scs"] and r["scs"] != [0]:
-                lines.append("%s{" % prefix(r["scs"]))
-                lines.append("%s  %s" % (pat, act))
-                lines.append("}")
             elif use_scopes and r["scs"] == [0] and act != "|" and nested_star(k):
                 pending_star = "%s  %s" % (pat, act)
             else:
+                if open_scope is not None: lines.append("}"); open_scope = None
                 lines.append("%s%s  %s" % (prefix(r["scs"]), pat, act))
         else:
             e = src["eofs"][k - 1]
+            if open_scope is not None: lines.append("}"); open_scope = None
             lines.append("%s<<EOF>>  { VEOF(%d) }" % (prefix(e["scs"]), k))
+    if open_scope is not None: lines.append("}")
     return lines
 
 
